@@ -55,13 +55,36 @@ Inductive op :=
 Definition has_us (n : list Z) : bool := existsb (Z.eqb 95) n.           (* '_' *)
 Definition keeps (f : filt) (c : chrom) : bool :=
   match f with KeepAll => true | IgnoreUnderscore => negb (has_us (c_name c)) end.
-Definition incl_flags (f : filt) (g : list chrom) : list bool := map (keeps f) g.
+(* a genome context is a chrom-size dict plus the predicate "this chromosome is included" *)
+Definition incl_flags (p : chrom -> bool) (g : list chrom) : list bool := map p g.
 (* the string encoding lists the included names first: code = rank among the included *)
 Definition code_of (fl : list bool) (k : Z) : Z := len (filter (fun b : bool => b) (firstn (Z.to_nat k) fl)).
 Definition incl_idx (fl : list bool) : list Z := flatnonzero fl.
 Definition uncode (fl : list bool) (c : Z) : Z := nthZ (incl_idx fl) c.
-Definition ctx_sizes (f : filt) (g : list chrom) : list Z := map c_size (filter (keeps f) g).
-Definition ctx_us (f : filt) (g : list chrom) : list bool := map (fun c => has_us (c_name c)) (filter (keeps f) g).
+Definition ctx_sizes (p : chrom -> bool) (g : list chrom) : list Z := map c_size (filter p g).
+Definition ctx_us (p : chrom -> bool) (g : list chrom) : list bool := map (fun c => has_us (c_name c)) (filter p g).
+
+(* ---------- GenomeContext as a state: dict + set of ignored names (from_dict, with_ignored_added) ---------- *)
+Record gctx := { gx_dict : list chrom; gx_ign : list (list Z) }.
+Definition name_in (n : list Z) (l : list (list Z)) : bool := existsb (zlist_eqb n) l.
+Definition gx_keep (x : gctx) (c : chrom) : bool := negb (name_in (c_name c) (gx_ign x)).
+(* GenomeContext.from_dict(chrom_sizes, filter_function): the names the filter rejects are the ignored set *)
+Definition ctx_from_dict (f : filt) (g : list chrom) : gctx :=
+  {| gx_dict := g; gx_ign := map c_name (filter (fun c => negb (keeps f c)) g) |}.
+(* c.update({name: 0 for name in ignored}): an existing name gets size 0 in place, a new one is appended *)
+Fixpoint set_size0 (n : list Z) (d : list chrom) : list chrom :=
+  match d with
+  | [] => []
+  | c :: r => (if zlist_eqb (c_name c) n then {| c_name := c_name c; c_size := 0 |} else c) :: set_size0 n r
+  end.
+Definition dict_add (d : list chrom) (n : list Z) : list chrom :=
+  if name_in n (map c_name d) then set_size0 n d else d ++ [{| c_name := n; c_size := 0 |}].
+Definition dict_update (d : list chrom) (names : list (list Z)) : list chrom := fold_left dict_add names d.
+(* GenomeContext.with_ignored_added: the new ignored set is the added names together with the old ignored set *)
+Definition ctx_with_ignored_added (x : gctx) (added : list (list Z)) : gctx :=
+  {| gx_dict := dict_update (gx_dict x) added; gx_ign := added ++ gx_ign x |}.
+Definition ctx_steps (f : filt) (g : list chrom) (steps : list (list (list Z))) : gctx :=
+  fold_left ctx_with_ignored_added steps (ctx_from_dict f g).
 (* mask_data: entries of ignored chromosomes are dropped, the rest re-coded *)
 Definition visible (fl : list bool) (es : list entry) : list entry :=
   map (fun e => set_chr e (code_of fl (e_chr e))) (filter (fun e => nthd false fl (e_chr e)) es).
